@@ -482,7 +482,11 @@ class Dendrogram(object):
         if not isinstance(other, Dendrogram):
             return False
 
-        if not (self.data == other.data).all():
+        if self.data.shape != other.data.shape:
+            return False
+
+        if not ((self.data == other.data) |
+                ((self.data != self.data) & (other.data != other.data))).all():
             return False
 
         if self.params['min_value'] != other.params['min_value']:
